@@ -26,6 +26,7 @@ type modelCRL struct {
 	rejectAtEnd   bool // reader fails after all entries (e.g. unhandled critical extension)
 	sigOK         bool // signature verifies under an entitled signer
 	needsChain    bool // ... but only if the caller supplies at least one certificate chain
+	needsIssuerCA bool // ... but only if a presented chain (end-entity + CA) is supplied, the stored signer alone does not do
 }
 
 type server struct {
@@ -94,6 +95,19 @@ func modelVerify(result *crlreader.CRLReadResult, chains *core.CertificateChains
 	}
 	if c.needsChain && (chains == nil || len(chains.CertificateChainList) == 0) {
 		return nil, verifrt.NewError("can not find CRL issuer certificate")
+	}
+	if c.needsIssuerCA {
+		found := false
+		if chains != nil {
+			for _, ch := range chains.CertificateChainList {
+				if len(ch.CertificateChainEntryList) >= 2 {
+					found = true
+				}
+			}
+		}
+		if !found {
+			return nil, verifrt.NewError("can not find CRL issuer certificate")
+		}
 	}
 	return signer, nil
 }
